@@ -1113,6 +1113,28 @@ static void tecmpEnumerate(const TTask& t, bool thorough, Fn fn)
                 ref::put32(p, 0x01000000u * (i + 1) + i); ref::put32(p, 0xA0000000u + 1000 * i + v); ref::put32(p, 0x00000100u * i + 7);
             }
             fn(ref::tecmpFrame(h, p));
+            // entries that repeat: two adjacent identical entries, the first equal to the last, all entries identical, all zero -
+            // still one interface-status packet per entry, in wire order
+            if (v < 2 && t.a >= 2)
+            {
+                for (int mode = 0; mode < 4; ++mode)
+                {
+                    Bytes q(p.begin(), p.begin() + 12);
+                    for (int i = 0; i < t.a; ++i)
+                    {
+                        int j = mode == 0 ? (i == 1 ? 0 : i) : (mode == 1 ? (i == t.a - 1 ? 0 : i) : 0);
+                        if (mode == 3)
+                        {
+                            ref::put32(q, 0); ref::put32(q, 0); ref::put32(q, 0);
+                        }
+                        else
+                        {
+                            ref::put32(q, 0x01000000u * (j + 1) + j); ref::put32(q, 0xA0000000u + 1000 * j + v); ref::put32(q, 0x00000100u * j + 7);
+                        }
+                    }
+                    fn(ref::tecmpFrame(h, q));
+                }
+            }
             if (v == 0)
                 declVariants(ref::tecmpFrame(h, p));
             if (v == 0)
@@ -1808,6 +1830,46 @@ int main(int argc, char** argv)
                       });
         }
         abortedRound(run, thorough);
+        // very long buffers: N well-formed unsegmented messages behind one frame header (nothing limits a byte string to a frame size):
+        // the call returns normally with N packets whatever N is - stack use, quadratic work and 32-bit offsets show only here
+        {
+            std::vector<size_t> ns = {4000, 65536, 300000};
+            if (thorough)
+                ns.push_back(2000000);
+            run.round("very long buffers: N aggregated unsegmented messages in one buffer, N up to 300000 (thorough 2000000), generic and CAN", ns.size() * 2, [&, ns](W& w, uint64_t o) {
+                size_t n = ns[o / 2];
+                bool can = o % 2;
+                auto desc = [&] { return fmt("long=%zu;can=%d", n, (int) can); };
+                if (!w.begin_case(desc))
+                    return;
+                ref::FrameHdr fh;
+                fh.device = 0x21; fh.stream = 2; fh.msgType = ref::MT_DATA; fh.seq = 1;
+                ref::CanF cf;
+                cf.idword = 0x155; cf.dataLen = 2; cf.dlc = 2; cf.data = patt(2, 1);
+                ref::Msg m = can ? ref::mkMsg(ref::PT_CAN, ref::canPayload(cf), 0, 7, 8) : ref::mkMsg(0xFE, Bytes{}, 0, 7, 8);
+                Bytes one = ref::buildFrame(fh, {m});
+                Bytes f(one.begin(), one.begin() + 8);
+                f.reserve(8 + n * (one.size() - 8));
+                for (size_t i = 0; i < n; ++i)
+                    f.insert(f.end(), one.begin() + 8, one.end());
+                Decoder d;
+                Buf b;
+                b.base = f;
+                Decoded r = decodeExact(d, b);
+                w.add(mc::C_TRANS, 1);
+                if (r.inputChanged)
+                    w.fail("safety:decoder-wrote-to-input-buffer", "the long buffer was modified by decode()");
+                if (r.packets.size() != n)
+                    w.fail("safety:long-buffer-packet-count", fmt("%zu well-formed messages in one buffer: %zu packets returned", n, r.packets.size()));
+                uint64_t h = r.packets.size();
+                for (size_t i = 0; i < r.packets.size(); i += std::max<size_t>(1, r.packets.size() / 64))
+                    if (r.packets[i])
+                        h = mc::mix(h, obs::digest(obs::observe(*r.packets[i])));
+                w.outcome(h);
+                w.add(mc::C_TRACES, 1);
+                w.add(mc::C_STATES, 1);
+            });
+        }
         run.round("histories: all ordered pairs of the sub-corpus on one decoder", ctx.sub.size(), [&](W& w, uint64_t o) {
             for (size_t j = 0; j < ctx.sub.size(); ++j)
             {
